@@ -452,23 +452,24 @@ Qed.
 Lemma cl2_val_doc w b x : cl2_val w b x = sq (cabs w) * sq (cabs (csub x b)).
 Proof. rewrite cl2_val_alt. unfold sq. rewrite !cabs_sq. reflexivity. Qed.
 
-(* L1NormViewAsReal.forward agrees with the documented  |Wr Re(x-b)| + |Wi Im(x-b)|  (Wi = Wr for a real weight, im w = 0)
-   unless the weight is complex while x and target are real tensors *)
+(* L1NormViewAsReal.forward agrees with the documented  |Wr Re(x-b)| + |Wi Im(x-b)|  (Wi = Wr for a real weight, im w = 0);
+   real data (dc = false) have zero imaginary parts *)
 Lemma l1r_val_code_ok (wc dc : bool) w b x :
-  (wc = false -> snd w = 0) -> (dc = false -> snd x = 0 /\ snd b = 0) -> (wc = true -> dc = true) ->
+  (wc = false -> snd w = 0) -> (dc = false -> snd x = 0 /\ snd b = 0) ->
   l1r_val_code wc dc w b x = l1r_val (fst w) (if wc then snd w else fst w) b x.
 Proof.
-  intros Hw Hd Hg. unfold l1r_val_code, l1r_val, csub; cbn [fst snd].
-  destruct dc, wc; try reflexivity.
-  - discriminate (Hg eq_refl).
-  - destruct (Hd eq_refl) as [-> ->]. replace (fst w * (0 - 0)) with 0 by ring. rewrite Rabs_R0. ring.
+  intros Hw Hd. unfold l1r_val_code, l1r_val, csub; cbn [fst snd].
+  destruct dc; [destruct wc; reflexivity|].
+  destruct (Hd eq_refl) as [-> ->].
+  replace ((if wc then snd w else fst w) * (0 - 0)) with 0 by ring. rewrite Rabs_R0. ring.
 Qed.
 
-Lemma l1r_val_code_refuted : exists w b x,
-  snd x = 0 /\ snd b = 0 /\ l1r_val_code true false w b x <> l1r_val (fst w) (snd w) b x.
+(* Legacy: the definition before the repair violated the documented value for a complex weight on real data *)
+Lemma l1r_val_code_legacy_refuted : exists w b x,
+  snd x = 0 /\ snd b = 0 /\ l1r_val_code_legacy true false w b x <> l1r_val (fst w) (snd w) b x.
 Proof.
   exists (3, 4), (0, 0), (1, 0). split; [reflexivity|split; [reflexivity|]].
-  unfold l1r_val_code, l1r_val, csub; cbn [fst snd].
+  unfold l1r_val_code_legacy, l1r_val, csub; cbn [fst snd].
   assert (E : cabs (cmul (3, 4) (1 - 0, 0)) = 5).
   { apply cabs_unique; [lra|]. unfold cnorm2, cmul; cbn [fst snd]. ring. }
   rewrite E. replace (3 * (1 - 0)) with 3 by ring. replace (4 * (0 - 0)) with 0 by ring.
